@@ -98,8 +98,8 @@ func (g *GlobalTransactionManager) Commit(ctx context.Context, gtr *GlobalTransa
 		bf.Wait()
 	}
 
-	if err != nil || bf.Err() != nil {
-		lastErr := errors.Wrap(err, bf.Err().Error())
+	if err != nil || res == nil {
+		lastErr := secondPhaseError(err, bf.Err(), "commit", gtr.Xid)
 		log.Warnf("send global commit request failed, xid %s, error %v", gtr.Xid, lastErr)
 		return lastErr
 	}
@@ -140,8 +140,8 @@ func (g *GlobalTransactionManager) Rollback(ctx context.Context, gtr *GlobalTran
 		bf.Wait()
 	}
 
-	if err != nil && bf.Err() != nil {
-		lastErr := errors.Wrap(err, bf.Err().Error())
+	if err != nil || res == nil {
+		lastErr := secondPhaseError(err, bf.Err(), "rollback", gtr.Xid)
 		log.Errorf("GlobalRollbackRequest rollback failed, xid %s, error %v", gtr.Xid, lastErr)
 		return lastErr
 	}
@@ -150,4 +150,19 @@ func (g *GlobalTransactionManager) Rollback(ctx context.Context, gtr *GlobalTran
 	gtr.TxStatus = res.(message.GlobalRollbackResponse).GlobalStatus
 
 	return nil
+}
+
+// secondPhaseError builds the error of a second phase that got no acknowledgement: the last
+// transport error, the reason the retry loop stopped (context cancelled, retries used up), or both.
+func secondPhaseError(err error, stopReason error, phase string, xid string) error {
+	switch {
+	case err != nil && stopReason != nil:
+		return errors.Wrap(err, stopReason.Error())
+	case err != nil:
+		return err
+	case stopReason != nil:
+		return errors.Wrap(stopReason, fmt.Sprintf("global %s request not sent, xid %s", phase, xid))
+	default:
+		return fmt.Errorf("global %s request got no response, xid %s", phase, xid)
+	}
 }
